@@ -17,4 +17,7 @@ def GROUP_KEY_FIELDS : List String := ["instrument", "program", "is_drum"]
 def GROUP_LOOP_SORTED : Bool := true
 /-- AST of midi_to_note_sequence: `key_number % K` and `key_number // K` -/
 def KEY_DECODE_MODULUS : Int := 12
+/-- `pretty_midi.pretty_midi.MAX_TICK` in force after `import note_seq.midi_io` (floor): the loader refuses a
+file whose largest tick + 1 exceeds it -/
+def MAX_TICK : Int := 10000000000
 end NSV.C03.Gen
